@@ -163,7 +163,7 @@ DEFAULT_FEATURES = dict(
     in_sub=True, not_in_sub=False, exists=True, not_exists=True, scalar_sub=True,
     derived=True, cte=True, order=True, limit=True, offset_no_limit=False, order_expr=True,
     cast=True, concat=True, group_expr=True, where_false=True, case_no_else=False,
-    corr_in_sub=False, neg=True, null_lit=True, sum_=True, derived_limit=False,
+    corr_in_sub=False, neg=True, null_lit=True, sum_=True, derived_limit=False, agg_in_list=True, in_sub_expr=True,
 )
 
 
@@ -448,7 +448,12 @@ class QueryGen:
                 self.tag("corr_in_sub")
                 o = r.choice(ints_out)[0]
                 inner_where = f" WHERE {r.choice(ints_in)[0]} {r.choice(['=', '<', '>'])} {o}"
-            return f"({r.choice(ints_out)[0]} {neg}IN (SELECT {r.choice(ints_in)[0]} FROM {t.name} AS {a}{inner_where}))"
+            item = r.choice(ints_in)[0]
+            if self.on("in_sub_expr", 0.3):
+                # a computed (non-aggregate) select item in the subquery
+                self.tag("in_sub_expr")
+                item = f"({item} {r.choice(['+', '-', '*'])} {r.randint(1, 3)})"
+            return f"({r.choice(ints_out)[0]} {neg}IN (SELECT {item} FROM {t.name} AS {a}{inner_where}))"
         if k in ("exists", "not_exists"):
             neg = "NOT " if k == "not_exists" else ""
             corr = f"{r.choice(ints_in)[0]} = {r.choice(ints_out)[0]}"
@@ -499,6 +504,10 @@ class QueryGen:
             for _ in range(r.randint(1, 3)):
                 aggs.append(self.agg_expr(scope))
             for a, ty in aggs:
+                if ty == "INT" and self.on("agg_in_list", 0.12):
+                    # an aggregate as the left operand of an IN list (a BOOLEAN select item)
+                    self.tag("agg_in_list")
+                    a, ty = f"({a} IN ({self.int_lit()}, {self.int_lit()}, {r.randint(0, 3)}))", "BOOLEAN"
                 items.append(a)
                 types.append(ty)
             if gcols:
